@@ -83,7 +83,7 @@ Section Spec.
               | Some cl =>
                   let p' := skipn (k + 3) p in
                   if bash_cls_mem cl t0 then matched p' cRBRK else next_item p'
-              | None => next_item p         (* invalid name: not special, nothing matches here *)
+              | None => next_item (skipn (k + 3) p)   (* invalid name: the element is skipped and matches nothing *)
               end
           | None => next_item p
           end
